@@ -46,6 +46,9 @@ func init() {
 	gen.RegisterOp("c02", "e2e-f28", func(c *gen.Ctx, raw json.RawMessage) any {
 		return c02E2E(c, gen.Into[c02E2EIn](raw))
 	})
+	gen.RegisterOp("c02", "populate", func(_ *gen.Ctx, raw json.RawMessage) any {
+		return c02Populate(gen.Into[c02PopIn](raw))
+	})
 	gen.RegisterOp("c02", "libexpected", func(_ *gen.Ctx, raw json.RawMessage) any {
 		return c02LibExpected(gen.Into[c02LibIn](raw))
 	})
@@ -536,6 +539,153 @@ type c02LoadIn struct {
 	Suite string `json:"suite"` // YAML/JSON text of one suite file
 	Mode  string `json:"mode"`
 	Note  string `json:"note"`
+	// Shapes: instead of Suite, an abstract description of one suite per file (mirrored by
+	// lean/ConfModel/Model/EchoLoad.lean, which predicts whether the load is rejected)
+	Shapes []c02LSuite `json:"shapes,omitempty"`
+}
+
+// kinds of request messages: unary | idempotent | clientStream | serverStream | bidi (carry a
+// response definition and request_data) | unimplemented (UnimplementedRequest) | other (a Header)
+type c02LCase struct {
+	Name        string   `json:"name"`
+	St          int      `json:"st"` // stream_type enum number (0 unspecified, 1..5, other numbers unknown)
+	Service     bool     `json:"service"`
+	Method      bool     `json:"method"`
+	Msgs        []string `json:"msgs"`
+	RawRequest  bool     `json:"rawRequest"`
+	RawResponse bool     `json:"rawResponse"` // the first message's definition carries a raw response
+	Explicit    bool     `json:"explicit"`
+	Expand      []string `json:"expand"` // absent | fits | misfit
+}
+type c02LSuite struct {
+	Name        string     `json:"name"`
+	Mode        int        `json:"mode"`
+	OnlyConnect bool       `json:"onlyConnect"` // relevantProtocols [CONNECT]; otherwise Protos (not that list)
+	Protos      []int      `json:"protos"`
+	Codecs      []int      `json:"codecs"`
+	Tls         bool       `json:"tls"`
+	Certs       bool       `json:"certs"`
+	Get         bool       `json:"get"`
+	Cvm         int        `json:"cvm"`
+	Cases       []c02LCase `json:"cases"`
+}
+
+func c02LMsg(kind string, first, raw bool, k int) *anypb.Any {
+	data := []byte{byte(k), 1, 2}
+	var udef *conformancev1.UnaryResponseDefinition
+	var sdef *conformancev1.StreamResponseDefinition
+	if first {
+		udef = &conformancev1.UnaryResponseDefinition{Response: &conformancev1.UnaryResponseDefinition_ResponseData{ResponseData: []byte("r")}}
+		sdef = &conformancev1.StreamResponseDefinition{ResponseData: [][]byte{[]byte("r")}}
+		if raw {
+			udef.RawResponse = &conformancev1.RawHTTPResponse{StatusCode: 200}
+			sdef.RawResponse = &conformancev1.RawHTTPResponse{StatusCode: 200}
+		}
+	}
+	var m proto.Message
+	switch kind {
+	case "unary":
+		m = &conformancev1.UnaryRequest{RequestData: data, ResponseDefinition: udef}
+	case "idempotent":
+		m = &conformancev1.IdempotentUnaryRequest{RequestData: data, ResponseDefinition: udef}
+	case "clientStream":
+		m = &conformancev1.ClientStreamRequest{RequestData: data, ResponseDefinition: udef}
+	case "serverStream":
+		m = &conformancev1.ServerStreamRequest{RequestData: data, ResponseDefinition: sdef}
+	case "bidi":
+		m = &conformancev1.BidiStreamRequest{RequestData: data, ResponseDefinition: sdef}
+	case "unimplemented":
+		m = &conformancev1.UnimplementedRequest{}
+	default:
+		m = &conformancev1.Header{Name: "x-not-a-request", Value: []string{"v"}}
+	}
+	a, _ := anypb.New(m)
+	return a
+}
+
+func c02LSuiteProto(sh c02LSuite) *conformancev1.TestSuite {
+	s := &conformancev1.TestSuite{Name: sh.Name, Mode: conformancev1.TestSuite_TestMode(sh.Mode), ReliesOnTls: sh.Tls,
+		ReliesOnTlsClientCerts: sh.Certs, ReliesOnConnectGet: sh.Get, ConnectVersionMode: conformancev1.TestSuite_ConnectVersionMode(sh.Cvm)}
+	if sh.OnlyConnect {
+		s.RelevantProtocols = []conformancev1.Protocol{conformancev1.Protocol_PROTOCOL_CONNECT}
+	} else {
+		for _, p := range sh.Protos {
+			s.RelevantProtocols = append(s.RelevantProtocols, conformancev1.Protocol(p))
+		}
+	}
+	for _, c := range sh.Codecs {
+		s.RelevantCodecs = append(s.RelevantCodecs, conformancev1.Codec(c))
+	}
+	for _, c := range sh.Cases {
+		req := &conformancev1.ClientCompatRequest{TestName: c.Name, StreamType: conformancev1.StreamType(c.St)}
+		if c.Service {
+			req.Service = proto.String(c02ServiceName)
+		}
+		if c.Method {
+			req.Method = proto.String("Unary")
+		}
+		for i, k := range c.Msgs {
+			req.RequestMessages = append(req.RequestMessages, c02LMsg(k, i == 0, c.RawResponse, i))
+		}
+		if c.RawRequest {
+			req.RawRequest = &conformancev1.RawHTTPRequest{Verb: "POST", Uri: "/x"}
+		}
+		tc := &conformancev1.TestCase{Request: req}
+		if c.Explicit {
+			tc.ExpectedResponse = &conformancev1.ClientResponseResult{Error: &conformancev1.Error{Code: conformancev1.Code_CODE_UNIMPLEMENTED}}
+		}
+		for _, d := range c.Expand {
+			switch d {
+			case "fits":
+				tc.ExpandRequests = append(tc.ExpandRequests, &conformancev1.TestCase_ExpandedSize{SizeRelativeToLimit: proto.Int32(int32(len(tc.ExpandRequests)) - 1)})
+			case "misfit":
+				// below what removing all request data could reach, or below zero altogether
+				v := int32(-204000)
+				if len(tc.ExpandRequests)%2 == 1 {
+					v = -204801
+				}
+				tc.ExpandRequests = append(tc.ExpandRequests, &conformancev1.TestCase_ExpandedSize{SizeRelativeToLimit: proto.Int32(v)})
+			default:
+				tc.ExpandRequests = append(tc.ExpandRequests, &conformancev1.TestCase_ExpandedSize{})
+			}
+		}
+		s.TestCases = append(s.TestCases, tc)
+	}
+	return s
+}
+
+// ---- op: populate (populateExpectedResponse on messages no suite file can contain) ----
+
+// c02PopIn: a test case built directly as a message: stream type by number, request messages by kind —
+// here also "unknown" (an Any of a type that is not registered) and "garbage" (bytes that are no
+// message of the named type), which JSON / YAML cannot express
+type c02PopIn struct {
+	St       int      `json:"st"`
+	Msgs     []string `json:"msgs"`
+	Explicit bool     `json:"explicit"`
+}
+
+func c02Populate(in c02PopIn) map[string]any {
+	req := &conformancev1.ClientCompatRequest{TestName: "p", StreamType: conformancev1.StreamType(in.St)}
+	for i, k := range in.Msgs {
+		switch k {
+		case "unknown":
+			req.RequestMessages = append(req.RequestMessages, &anypb.Any{TypeUrl: "type.googleapis.com/nope.Nope", Value: []byte{1, 2}})
+		case "garbage":
+			req.RequestMessages = append(req.RequestMessages, &anypb.Any{TypeUrl: "type.googleapis.com/connectrpc.conformance.v1.UnaryRequest", Value: []byte{0xff, 0xff, 0xff}})
+		default:
+			req.RequestMessages = append(req.RequestMessages, c02LMsg(k, i == 0, false, i))
+		}
+	}
+	tc := &conformancev1.TestCase{Request: req}
+	if in.Explicit {
+		tc.ExpectedResponse = &conformancev1.ClientResponseResult{}
+	}
+	res, err := cc.VerifC02PopulateExpected(tc)
+	if err != nil {
+		return map[string]any{"class": "error"}
+	}
+	return map[string]any{"class": "ok", "payloads": len(res.GetPayloads())}
 }
 
 func c02Load(in c02LoadIn) map[string]any {
@@ -546,7 +696,20 @@ func c02Load(in c02LoadIn) map[string]any {
 	case "server":
 		mode = conformancev1.TestSuite_TEST_MODE_SERVER
 	}
-	names, err := cc.VerifC02Load(map[string][]byte{"s.yaml": []byte(in.Suite)}, c02CfgYAML([]int{1, 2}, []int{1, 2, 3}, []int{1, 2}, []int{1}), mode, true, true)
+	files := map[string][]byte{"s.yaml": []byte(in.Suite)}
+	cfg := c02CfgYAML([]int{1, 2}, []int{1, 2, 3}, []int{1, 2}, []int{1})
+	if len(in.Shapes) > 0 {
+		// the configuration lean/ConfModel/Model/EchoLoad.lean `cfgApplies` speaks about
+		files, cfg = map[string][]byte{}, c02CfgYAMLGet([]int{1, 2}, []int{1, 2, 3}, []int{1, 2}, []int{1, 2}, true)
+		for i, sh := range in.Shapes {
+			b, err := protojson.Marshal(c02LSuiteProto(sh))
+			if err != nil {
+				return map[string]any{"class": "unmarshalable", "err": err.Error()}
+			}
+			files[fmt.Sprintf("s%d.yaml", i)] = b
+		}
+	}
+	names, err := cc.VerifC02Load(files, cfg, mode, true, true)
 	if err != nil {
 		return map[string]any{"class": "error"}
 	}
@@ -1054,12 +1217,24 @@ func c02Decorate(r *gen.Rand, tc c02TC) c02TC {
 // c02GenGetTC: a case of suite VG (reliesOnConnectGet, Connect only): mostly IdempotentUnary with
 // use_get_http_method; also cases that do not use GET at all (any stream type — the config cases of
 // a GET-supporting implementation exist for every stream type), and the unimplemented method
-func c02GenGetTC(r *gen.Rand, bin bool) c02TC {
+//
+// postGet: also a case that sets use_get_http_method on the plain Unary method, which every client
+// POSTs: the expectation lists query parameters, the response none, and the comparison is skipped
+// ("only when both sides list any") — not against the reference-mode reference server, which is told
+// to expect a GET request line.
+func c02GenGetTC(r *gen.Rand, bin bool, postGet bool) c02TC {
 	switch r.Intn(10) {
 	case 0:
 		return c02Decorate(r, c02RandomTC(r, bin, 1))
 	case 1:
 		return c02Unimplemented(r, false)
+	case 2:
+		if postGet {
+			tc := c02GenTC(r, "unary", 1, r.Intn(2), r.Chance(2, 5), bin)
+			tc.LaterDefs = nil
+			tc.Get = true
+			return tc
+		}
 	}
 	tc := c02GenTC(r, "unary", 1, r.Intn(2), r.Chance(2, 5), bin)
 	tc.LaterDefs = nil
@@ -1177,7 +1352,7 @@ func runC02(c *gen.Ctx) error {
 		}
 		in.Cases = append(in.Cases, c02Unimplemented(rg, rg.Chance(1, 3)))
 		for i := 0; i < 6; i++ {
-			in.GetCases = append(in.GetCases, c02GenGetTC(rg, true))
+			in.GetCases = append(in.GetCases, c02GenGetTC(rg, true, true))
 		}
 		if rg.Bool() {
 			in.GetComps = []int{1}
@@ -1197,6 +1372,22 @@ func runC02(c *gen.Ctx) error {
 	// (2) loading parseable but odd suites never crashes
 	for _, in := range c02LoadCases(r) {
 		c.Do("load", in)
+	}
+	// (2b) ... and is rejected exactly when the model of the validation says so: suites described by
+	// shape, one departure (or two) from a loadable input per validation branch
+	for _, in := range c02LoadShapes(rg, c.Thorough()) {
+		c.Do("load", in)
+		c.E.Count("load-shape:" + in.Note)
+	}
+	// (2c) populateExpectedResponse called directly: stream types by number (unspecified, unknown) and
+	// request messages that no suite file can express (unregistered type, bytes that are no message)
+	for st := 0; st <= 7; st++ {
+		for _, kinds := range [][]string{{}, {"unary"}, {"idempotent"}, {"clientStream"}, {"serverStream"}, {"bidi"}, {"unimplemented"}, {"other"},
+			{"unknown"}, {"garbage"}, {"unary", "garbage"}, {"bidi", "unknown"}, {"garbage", "unary"}} {
+			for _, ex := range []bool{false, true} {
+				c.Do("populate", c02PopIn{St: st, Msgs: kinds, Explicit: ex})
+			}
+		}
 	}
 	// (3) end to end through the real Run
 	nRuns, perRun := 14, 12
@@ -1253,10 +1444,17 @@ func runC02(c *gen.Ctx) error {
 				nGetCases = 8
 			}
 			for i := 0; i < nGetCases; i++ {
-				in.GetCases = append(in.GetCases, c02GenGetTC(rg, true))
+				in.GetCases = append(in.GetCases, c02GenGetTC(rg, true, in.Mode == "server"))
 			}
 			if in.Mode != "server" {
 				in.GetComps = []int{1}
+			} else {
+				// always: use_get_http_method on the plain Unary method (POSTed: nothing to compare the
+				// expected query parameters with)
+				tc := c02GenTC(rg, "unary", 1, rg.Intn(2), rg.Chance(2, 5), true)
+				tc.LaterDefs = nil
+				tc.Get = true
+				in.GetCases = append(in.GetCases, tc)
 			}
 		}
 		ins = append(ins, in)
@@ -1298,6 +1496,218 @@ func runC02(c *gen.Ctx) error {
 	return nil
 }
 
+// ---- generator of suite shapes for the load op ----
+
+var c02LKinds = []string{"unary", "idempotent", "clientStream", "serverStream", "bidi", "unimplemented", "other"}
+
+// a case the loader accepts: the message kind of its stream type, no directives
+func c02LGoodCase(r *gen.Rand, name string) c02LCase {
+	st := r.Range(1, 5)
+	kind := map[int]string{1: "unary", 2: "clientStream", 3: "serverStream", 4: "bidi", 5: "bidi"}[st]
+	c := c02LCase{Name: name, St: st, Msgs: []string{}, Expand: []string{}}
+	n := 1
+	if st == 2 || st >= 4 {
+		n = r.Intn(3)
+	}
+	for i := 0; i < n; i++ {
+		c.Msgs = append(c.Msgs, kind)
+	}
+	if r.Chance(1, 4) {
+		c.Service, c.Method = true, true
+	}
+	return c
+}
+
+// runMode: the mode of the run (0, 1 client, 2 server): the suite is for every mode or for that one
+func c02LGoodSuite(r *gen.Rand, name string, runMode int) c02LSuite {
+	s := c02LSuite{Name: name, Mode: gen.Pick(r, []int{0, 0, runMode}), Protos: gen.Pick(r, [][]int{{}, {}, {2, 1}, {3}}),
+		Codecs: gen.Pick(r, [][]int{{}, {}, {1}, {2}, {1, 2}})}
+	for i := r.Range(1, 3); i > 0; i-- {
+		s.Cases = append(s.Cases, c02LGoodCase(r, fmt.Sprintf("c%d", i)))
+	}
+	return s
+}
+
+// the single departures from a loadable input, one per validation branch of parseTestSuites /
+// expandRequestData / newTestCaseLibrary / expandSuite / expandCases / populateExpectedResponse
+var c02LDefects = []struct {
+	name  string
+	apply func(r *gen.Rand, ss []c02LSuite) []c02LSuite
+}{
+	{"none", func(r *gen.Rand, ss []c02LSuite) []c02LSuite { return ss }},
+	{"stream-type-unspecified", func(r *gen.Rand, ss []c02LSuite) []c02LSuite { ss[0].Cases[0].St = 0; return ss }},
+	{"stream-type-unknown", func(r *gen.Rand, ss []c02LSuite) []c02LSuite { ss[0].Cases[0].St = gen.Pick(r, []int{6, 7, 99}); return ss }},
+	{"all-stream-types-unknown", func(r *gen.Rand, ss []c02LSuite) []c02LSuite {
+		for i := range ss {
+			for j := range ss[i].Cases {
+				ss[i].Cases[j].St = 6 + j
+			}
+		}
+		return ss
+	}},
+	{"case-no-name", func(r *gen.Rand, ss []c02LSuite) []c02LSuite { ss[0].Cases[len(ss[0].Cases)-1].Name = ""; return ss }},
+	{"service-without-method", func(r *gen.Rand, ss []c02LSuite) []c02LSuite {
+		ss[0].Cases[0].Service, ss[0].Cases[0].Method = true, false
+		return ss
+	}},
+	{"method-without-service", func(r *gen.Rand, ss []c02LSuite) []c02LSuite {
+		ss[0].Cases[0].Service, ss[0].Cases[0].Method = false, true
+		return ss
+	}},
+	{"duplicate-case-name", func(r *gen.Rand, ss []c02LSuite) []c02LSuite {
+		c := c02LGoodCase(r, ss[0].Cases[0].Name) // possibly of another stream type: the name alone counts
+		ss[0].Cases = append(ss[0].Cases, c)
+		return ss
+	}},
+	{"duplicate-name-not-runnable", func(r *gen.Rand, ss []c02LSuite) []c02LSuite {
+		c := c02LGoodCase(r, ss[0].Cases[0].Name)
+		c.St = 9 // never expanded: no clash
+		ss[0].Cases = append(ss[0].Cases, c)
+		return ss
+	}},
+	{"message-of-other-family", func(r *gen.Rand, ss []c02LSuite) []c02LSuite {
+		c := &ss[0].Cases[0]
+		if c.St <= 2 {
+			c.Msgs = []string{gen.Pick(r, []string{"serverStream", "bidi"})}
+		} else {
+			c.Msgs = []string{gen.Pick(r, []string{"unary", "idempotent", "clientStream"})}
+		}
+		return ss
+	}},
+	{"message-of-same-family-other-method", func(r *gen.Rand, ss []c02LSuite) []c02LSuite {
+		c := &ss[0].Cases[0] // accepted: only the family of the first message is looked at
+		if c.St <= 2 {
+			c.Msgs = []string{gen.Pick(r, []string{"unary", "idempotent", "clientStream"})}
+		} else {
+			c.Msgs = []string{gen.Pick(r, []string{"serverStream", "bidi"})}
+		}
+		return ss
+	}},
+	{"unimplemented-request", func(r *gen.Rand, ss []c02LSuite) []c02LSuite { ss[0].Cases[0].Msgs = []string{"unimplemented"}; return ss }},
+	{"non-request-message", func(r *gen.Rand, ss []c02LSuite) []c02LSuite { ss[0].Cases[0].Msgs = []string{"other"}; return ss }},
+	{"later-message-odd", func(r *gen.Rand, ss []c02LSuite) []c02LSuite {
+		c := &ss[0].Cases[0] // accepted: later messages are not looked at
+		if len(c.Msgs) == 0 {
+			c.Msgs = []string{map[bool]string{true: "unary", false: "bidi"}[c.St <= 2]}
+		}
+		c.Msgs = append(c.Msgs, gen.Pick(r, []string{"other", "unimplemented", "unary", "bidi"}))
+		return ss
+	}},
+	{"explicit-covers-odd-message", func(r *gen.Rand, ss []c02LSuite) []c02LSuite {
+		ss[0].Cases[0].Msgs, ss[0].Cases[0].Explicit = []string{gen.Pick(r, []string{"other", "unimplemented"})}, true
+		return ss
+	}},
+	{"raw-request", func(r *gen.Rand, ss []c02LSuite) []c02LSuite { ss[0].Cases[0].RawRequest = true; return ss }},
+	{"raw-request-server-suite", func(r *gen.Rand, ss []c02LSuite) []c02LSuite {
+		ss[0].Cases[0].RawRequest, ss[0].Mode = true, 2
+		return ss
+	}},
+	{"raw-response", func(r *gen.Rand, ss []c02LSuite) []c02LSuite {
+		c := &ss[0].Cases[0]
+		if len(c.Msgs) == 0 {
+			c.Msgs = []string{map[bool]string{true: "clientStream", false: "bidi"}[c.St <= 2]}
+		}
+		c.RawResponse, c.Explicit = true, r.Bool()
+		return ss
+	}},
+	{"raw-response-client-suite", func(r *gen.Rand, ss []c02LSuite) []c02LSuite {
+		c := &ss[0].Cases[0]
+		if len(c.Msgs) == 0 {
+			c.Msgs = []string{map[bool]string{true: "clientStream", false: "bidi"}[c.St <= 2]}
+		}
+		c.RawResponse, c.Explicit, ss[0].Mode = true, r.Chance(2, 3), 1
+		return ss
+	}},
+	{"raw-response-flag-without-definer", func(r *gen.Rand, ss []c02LSuite) []c02LSuite {
+		ss[0].Cases[0].Msgs, ss[0].Cases[0].RawResponse, ss[0].Cases[0].Explicit = []string{"other"}, true, true
+		return ss
+	}},
+	{"expand", func(r *gen.Rand, ss []c02LSuite) []c02LSuite {
+		c := &ss[0].Cases[0]
+		if len(c.Msgs) == 0 {
+			c.Msgs = []string{map[bool]string{true: "clientStream", false: "bidi"}[c.St <= 2]}
+		}
+		ss[0].Codecs = gen.Pick(r, [][]int{{1}, {1}, {}, {2}, {1, 2}, {2, 1}, {1, 1}})
+		n := r.Range(1, len(c.Msgs)+1)
+		for i := 0; i < n; i++ {
+			c.Expand = append(c.Expand, gen.Pick(r, []string{"absent", "fits", "fits", "misfit"}))
+		}
+		return ss
+	}},
+	{"expand-more-than-messages", func(r *gen.Rand, ss []c02LSuite) []c02LSuite {
+		c := &ss[0].Cases[0]
+		ss[0].Codecs = []int{1}
+		for i := 0; i <= len(c.Msgs); i++ {
+			c.Expand = append(c.Expand, gen.Pick(r, []string{"absent", "fits"}))
+		}
+		return ss
+	}},
+	{"expand-on-message-without-data", func(r *gen.Rand, ss []c02LSuite) []c02LSuite {
+		c := &ss[0].Cases[0]
+		c.Msgs, c.Explicit = []string{gen.Pick(r, []string{"other", "unimplemented"})}, true
+		ss[0].Codecs = []int{1}
+		c.Expand = []string{gen.Pick(r, []string{"absent", "fits", "misfit"})}
+		return ss
+	}},
+	{"suite-no-name", func(r *gen.Rand, ss []c02LSuite) []c02LSuite { ss[len(ss)-1].Name = ""; return ss }},
+	{"suite-no-cases", func(r *gen.Rand, ss []c02LSuite) []c02LSuite { ss[len(ss)-1].Cases = nil; return ss }},
+	{"duplicate-suite-name", func(r *gen.Rand, ss []c02LSuite) []c02LSuite {
+		d := c02LGoodSuite(r, ss[0].Name, r.Intn(3)) // a second file: also when it is for another mode
+		return append(ss, d)
+	}},
+	{"other-mode-only", func(r *gen.Rand, ss []c02LSuite) []c02LSuite {
+		for i := range ss {
+			ss[i].Mode = 1 + r.Intn(2) // against mode unspecified / the other one: "no test cases apply"
+		}
+		return ss
+	}},
+	{"certs-without-tls", func(r *gen.Rand, ss []c02LSuite) []c02LSuite { ss[0].Certs = true; return ss }},
+	{"tls", func(r *gen.Rand, ss []c02LSuite) []c02LSuite { ss[0].Tls, ss[0].Certs = true, r.Bool(); return ss }},
+	{"get", func(r *gen.Rand, ss []c02LSuite) []c02LSuite { ss[0].Get, ss[0].OnlyConnect = true, r.Chance(2, 3); return ss }},
+	{"get-with-connect-among-others", func(r *gen.Rand, ss []c02LSuite) []c02LSuite {
+		ss[0].Get, ss[0].OnlyConnect, ss[0].Protos = true, false, gen.Pick(r, [][]int{{1, 2}, {1, 1}, {}})
+		return ss
+	}},
+	{"connect-version-mode", func(r *gen.Rand, ss []c02LSuite) []c02LSuite {
+		ss[0].Cvm, ss[0].OnlyConnect = 1+r.Intn(2), r.Bool()
+		return ss
+	}},
+	{"codecs-not-configured", func(r *gen.Rand, ss []c02LSuite) []c02LSuite { ss[0].Codecs = []int{3}; return ss }},
+}
+
+func c02LoadShapes(r *gen.Rand, thorough bool) []c02LoadIn {
+	var out []c02LoadIn
+	base := func(runMode int) []c02LSuite {
+		ss := []c02LSuite{c02LGoodSuite(r, "A", runMode)}
+		if r.Chance(1, 3) {
+			ss = append(ss, c02LGoodSuite(r, "B", r.Intn(3)))
+		}
+		return ss
+	}
+	modes := []string{"", "client", "server"}
+	reps := 3
+	if thorough {
+		reps = 40
+	}
+	// every single defect, under every run mode
+	for _, d := range c02LDefects {
+		for k := 0; k < reps; k++ {
+			out = append(out, c02LoadIn{Mode: modes[k%3], Note: d.name, Shapes: d.apply(r, base(k%3))})
+		}
+	}
+	// pairs of defects (which error wins is not determined; that it is one is)
+	n := 60
+	if thorough {
+		n = 3000
+	}
+	for k := 0; k < n; k++ {
+		d1, d2 := gen.Pick(r, c02LDefects), gen.Pick(r, c02LDefects)
+		m := r.Intn(3)
+		out = append(out, c02LoadIn{Mode: modes[m], Note: d1.name + "+" + d2.name, Shapes: d2.apply(r, d1.apply(r, base(m)))})
+	}
+	return out
+}
+
 // suites that parse but have shapes the expansion cannot handle, or sit at its edges
 func c02LoadCases(r *gen.Rand) []c02LoadIn {
 	mk := func(note string, mutate func(s *conformancev1.TestSuite)) c02LoadIn {
@@ -1337,6 +1747,8 @@ func c02LoadCases(r *gen.Rand) []c02LoadIn {
 			a, _ := anypb.New(&conformancev1.Header{Name: "x"})
 			s.TestCases[0].Request.RequestMessages = []*anypb.Any{a}
 		}),
+		// (these two end up as an EMPTY file: JSON cannot render such an Any — protojson.Marshal fails;
+		// the messages themselves go through populateExpectedResponse in op populate)
 		mk("unknown any type", func(s *conformancev1.TestSuite) {
 			s.TestCases[0].Request.RequestMessages = []*anypb.Any{{TypeUrl: "type.googleapis.com/nope.Nope", Value: []byte{1, 2}}}
 		}),
